@@ -96,6 +96,16 @@ pub fn replay_obj_line(tally: &mut Tally, lineno: usize, line: &Value, scales: &
                 if let Some(w) = &wrapped[oi] {
                     if (w.delay(), w.duration(), w.repeat(), w.cycle_duration()) != (d, tot, rep, cyc) { t.miss(ctx("single-wrapped", json!("metadata differs"))); }
                 }
+                // a merged timeline of merged timelines, the first one empty (cycle duration undefined)
+                if op["op"] == "upd" && !tls.is_empty() {
+                    let nested = MergedTimeline::of([MergedTimeline::of(Vec::<P4Timeline>::new()), MergedTimeline::of(tls.clone())]);
+                    let nm = &m["nested"];
+                    let n_tot_ok = if huge { nested.duration().is_finite() && nested.duration() >= 4294967296.0 * tick } else { nested.duration() == exp_tot };
+                    let n_rep_ok = nm["reps"].as_array().unwrap().iter().any(|r| repeat_of(r.as_i64().unwrap()) == nested.repeat());
+                    if nested.delay() != 0.0 || !n_tot_ok || !n_rep_ok || nested.cycle_duration().is_some() {
+                        t.miss(ctx("meta", json!({"nested": [nested.delay().to_string(), nested.duration().to_string(), format!("{:?}", nested.repeat()), format!("{:?}", nested.cycle_duration())], "expected": nm})));
+                    }
+                }
             }
             t
         }));
